@@ -1,4 +1,5 @@
 import PyxisVerif.Props.C05
+import PyxisVerif.Props.CaseLift2
 import PyxisVerif.Props.Exec
 #print axioms PyxisVerif.C05.built_shape
 #print axioms PyxisVerif.C05.no_address_rejected
@@ -14,3 +15,9 @@ import PyxisVerif.Props.Exec
 #print axioms PyxisVerif.Exec.address_wrapper_static
 #print axioms PyxisVerif.Exec.built_type_address_methods
 #print axioms PyxisVerif.Exec.case_address_methods
+#print axioms PyxisVerif.C05.case_impl_functions_all_present
+#print axioms PyxisVerif.C05.case_built_shape
+#print axioms PyxisVerif.C05.case_declared_functions_present
+#print axioms PyxisVerif.C05.case_wrapper_shape
+#print axioms PyxisVerif.C05.case_wrapper_in_file
+#print axioms PyxisVerif.C05.case_declared_functions_present_refuted
